@@ -1,6 +1,6 @@
 (* Avx.v — executable model of src/x86/avx.rs (AvxHash) and src/x86/v4x64u.rs, function by function. *)
 From Coq Require Import NArith List Lia Bool Arith.
-From HW Require Import Word Chunks Packet Mem X86 Portable Sse.
+From HW Require Import Word Chunks Packet Mem Stream X86 Portable Sse.
 Import ListNotations.
 Local Open Scope N_scope.
 
@@ -108,32 +108,14 @@ Definition a_update_remainder (prof : profile) (s : astate) : res acore :=
   do packet <- a_remainder prof (self_buf A_BUF_ADDR sl) ;;
   Ok (a_update c packet).
 
-Fixpoint a_absorb_chunks (c : acore) (addr : N) (ps : list (list N)) : res acore :=
-  match ps with
-  | [] => Ok c
-  | chunk :: ps =>
-      do p <- a_data_to_lanes {| mbytes := chunk; maddr := addr |} ;;
-      a_absorb_chunks (a_update c p) (addr + 32) ps
-  end.
+(* update(data_to_lanes(packet)) *)
+Definition a_step (c : acore) (packet : mem) : res acore :=
+  do p <- a_data_to_lanes packet ;; Ok (a_update c p).
 
-(* avx.rs: append *)
+(* avx.rs: append — the shared text of Stream.v *)
 Definition a_append (prof : profile) (addr : N) (s : astate) (data : list N) : res astate :=
-  if is_empty (a_buffer s) then
-    let '(ps, r) := chunks32 data in
-    do c <- a_absorb_chunks (a_core s) addr ps ;;
-    do b <- set_to prof (a_buffer s) r ;;
-    Ok {| a_core := c; a_buffer := b |}
-  else
-    match fill (a_buffer s) data with
-    | (b, None) => Ok {| a_core := a_core s; a_buffer := b |}
-    | (b, Some tail) =>
-        do p <- a_data_to_lanes (self_buf A_BUF_ADDR (inner b)) ;;
-        let c := a_update (a_core s) p in
-        let '(ps, r) := chunks32 tail in
-        do c <- a_absorb_chunks c (addr + N.of_nat (length data - length tail)) ps ;;
-        do b' <- set_to prof b r ;;
-        Ok {| a_core := c; a_buffer := b' |}
-    end.
+  do r <- g_append a_step A_BUF_ADDR prof addr (a_core s) (a_buffer s) data ;;
+  Ok {| a_core := fst r; a_buffer := snd r |}.
 
 Definition a_pre_finalize (prof : profile) (s : astate) : res acore :=
   if negb (is_empty (a_buffer s)) then a_update_remainder prof s else Ok (a_core s).
